@@ -133,6 +133,11 @@ d=$(mk B6)
 edit "$d/stats/hypergdist.go" 's.replace("float64(d.N*d.N*(d.N-1))", "float64(d.N*d.N*d.N)")'
 expect B6 "$d" C06 tie_failed tie_hg_Variance
 
+echo "== B7 breaking: Log.Map forgets to mirror y for a negative domain"
+d=$(mk B7)
+edit "$d/scale/log.go" 's.replace("\tif neg {\n\t\ty = 1 - y\n\t}\n\tif s.Clamp {", "\tif s.Clamp {")'
+expect B7 "$d" C16 tie_failed tie_Log_Map
+
 echo "== U1 untranslatable: Weight computed through a map (same results)"
 d=$(mk U1)
 edit "$d/stats/stream.go" 's.replace("\treturn float64(s.Count)\n", "\tw := map[int]float64{0: float64(s.Count)}\n\treturn w[0]\n")'
